@@ -27,6 +27,7 @@ type Program struct {
 	TPkgs  map[string]*types.Package
 	PPkgs  map[string]*packages.Package
 	impls  map[string][]*ssa.Function // CHA cache
+	inst   map[string]bool
 	allFns map[*ssa.Function]bool
 }
 
@@ -170,7 +171,9 @@ func (P *Program) pos(p token.Pos) string {
 
 // isTestFile reports whether pos lies in a _test.go file.
 func (P *Program) isTestFile(p token.Pos) bool {
-	return strings.HasSuffix(P.Fset.Position(p).Filename, "_test.go")
+	fn := P.Fset.Position(p).Filename
+	// testutil holds test doubles of the instance interfaces: it is test support code
+	return strings.HasSuffix(fn, "_test.go") || strings.Contains(fn, "/testutil/")
 }
 
 // implementations returns the concrete methods in module code that may be the
@@ -209,6 +212,10 @@ func (P *Program) implementations(iface *types.Interface, method *types.Func) []
 				if tn.Object() != nil && P.isTestFile(tn.Object().Pos()) {
 					continue
 				}
+				// rapid type analysis: only types that non-test module code instantiates can be receivers
+				if isModulePkg(tn.Object().Pkg()) && !P.instantiated()[typeKey(tn.Type())] {
+					continue
+				}
 				seen[fn] = true
 				res = append(res, fn)
 			}
@@ -242,4 +249,79 @@ func (P *Program) sourceLine(file string, line int) string {
 		return strings.TrimSpace(ls[line-1])
 	}
 	return ""
+}
+
+
+// instantiated returns the named module types that non-test module code allocates or converts to an interface.
+func (P *Program) instantiated() map[string]bool {
+	if P.inst != nil {
+		return P.inst
+	}
+	P.inst = map[string]bool{}
+	cur := ""
+	mark := func(T types.Type) {
+		if p, ok := T.Underlying().(*types.Pointer); ok {
+			T = p.Elem()
+		}
+		if n, ok := types.Unalias(T).(*types.Named); ok {
+			if os.Getenv("GOVC_RTA") != "" && typeKey(n) == os.Getenv("GOVC_RTA") {
+				fmt.Fprintln(os.Stderr, "RTA mark", typeKey(n), "by", cur)
+			}
+			P.inst[typeKey(n)] = true
+		}
+	}
+	for f := range P.allFns {
+		cur = f.String() + " synthetic=" + f.Synthetic
+		if len(f.Blocks) == 0 || P.isTestFile(f.Pos()) {
+			continue
+		}
+		root := f
+		for root.Parent() != nil {
+			root = root.Parent()
+		}
+		if P.isTestFile(root.Pos()) {
+			continue
+		}
+		var tp *types.Package
+		if f.Pkg != nil {
+			tp = f.Pkg.Pkg
+		} else if root.Pkg != nil {
+			tp = root.Pkg.Pkg
+		}
+		if !isModulePkg(tp) {
+			continue
+		}
+		isInit := f.Synthetic != "" && f.Name() == "init"
+		for _, b := range f.Blocks {
+			for _, in := range b.Instrs {
+				if isInit {
+					// package initialisers: only values stored in (non-blank) globals survive;
+					// "var _ Iface = &T{}" assertions do not instantiate T
+					if st, ok := in.(*ssa.Store); ok {
+						if _, isG := st.Addr.(*ssa.Global); isG {
+							mark(st.Val.Type())
+							if mi, ok := st.Val.(*ssa.MakeInterface); ok {
+								mark(mi.X.Type())
+							}
+						}
+					}
+					continue
+				}
+				switch in := in.(type) {
+				case *ssa.Alloc:
+					if et := in.Type().(*types.Pointer).Elem(); !isPointer(et) {
+						mark(et)
+					}
+				case *ssa.MakeInterface:
+					mark(in.X.Type())
+				}
+			}
+		}
+	}
+	return P.inst
+}
+
+func isPointer(T types.Type) bool {
+	_, ok := T.Underlying().(*types.Pointer)
+	return ok
 }
